@@ -8,6 +8,7 @@
 List field
 """
 import inspect
+import operator
 from typing import Any, Iterable, List, Optional, Type, Union
 
 from ..core import (
@@ -42,7 +43,7 @@ class ListProxy(list, ContainerValueMixin):
             super().__init__(iterable)
         else:
             super().__init__(
-                self._validate(item) for index, item in enumerate(iterable)
+                self._validate(item, index) for index, item in enumerate(iterable)
             )
 
     @property
@@ -53,16 +54,21 @@ class ListProxy(list, ContainerValueMixin):
         return self.list_field.field  # type: ignore
 
     def append(self, item: Any) -> None:
-        super().append(self._validate(item))
+        super().append(self._validate(item, len(self)))
 
     def extend(self, iterable: Iterable) -> None:
         if isinstance(iterable, ListProxy) and iterable.item_field is self.item_field:
             super().extend(iterable)
         else:
-            super().extend(self._validate(item) for item in iterable)
+            start = len(self)
+            super().extend(
+                self._validate(item, start + offset)
+                for offset, item in enumerate(iterable)
+            )
 
     def insert(self, index: int, item: Any) -> None:
-        super().insert(index, self._validate(item))
+        position = max(len(self) + index, 0) if index < 0 else min(index, len(self))
+        super().insert(index, self._validate(item, position))
 
     def copy(self) -> "ListProxy":
         return ListProxy(self.cfg, self.list_field, self)
@@ -84,13 +90,17 @@ class ListProxy(list, ContainerValueMixin):
         if isinstance(index, slice):
             super().__setitem__(index, [self._validate(i) for i in item])
         else:
-            super().__setitem__(index, self._validate(item))
+            position = operator.index(index)
+            if position < 0:
+                position += len(self)
+            super().__setitem__(index, self._validate(item, position))
 
-    def _validate(self, value: Any) -> Any:
+    def _validate(self, value: Any, position: Optional[int] = None) -> Any:
         """
         Validate a value.
 
         :param value: value to validate
+        :param position: the index the value is going to be stored at (used in error paths)
         :returns: the validated value
         """
         if isinstance(self.item_field, Schema) or isconfigtype(self.item_field):
@@ -99,11 +109,14 @@ class ListProxy(list, ContainerValueMixin):
                 cfg._container = self
                 cfg._key = self.list_field._key
                 cfg._parent = self.cfg
+                # error paths are computed lazily, when the item may be neither in the list nor "pending" any more
+                cfg._position_hint = position
                 cfg.load_tree(value)  # type: ignore
             elif isinstance(value, Config):
                 value._parent = self.cfg
                 value._key = self.list_field._key
                 value._container = self
+                value._position_hint = position
                 value.validate()
                 cfg = value
             else:
@@ -122,10 +135,12 @@ class ListProxy(list, ContainerValueMixin):
         )
 
     def _get_item_position(self, item: Any) -> str:
-        try:
-            return str(self.index(item))
-        except:  # noqa: E722
-            return str(len(self))
+        # items are looked up by identity: equal configurations are different items
+        for index, candidate in enumerate(self):
+            if candidate is item:
+                return str(index)
+        hint = getattr(item, "_position_hint", None)
+        return str(len(self) if hint is None else hint)
 
 
 class ListField(Field):
